@@ -74,7 +74,13 @@ impl Effect for Distortion {
 					output.right / (1.0 + output.right.abs()),
 				),
 			};
-			output /= drive;
+			// a drive of -60 dB or less is an amplitude of exactly 0.0, which
+			// cannot be divided by; in the limit the signal is left unchanged
+			if drive != 0.0 {
+				output /= drive;
+			} else {
+				output = *frame;
+			}
 
 			*frame = output * mix.sqrt() + *frame * (1.0 - mix).sqrt()
 		}
